@@ -4,6 +4,7 @@ use core::mem;
 use dashu_base::{ExtendedGcd, Gcd};
 
 use crate::{
+    add,
     arch::word::{DoubleWord, SignedDoubleWord, SignedWord, Word},
     cmp::cmp_in_place,
     div,
@@ -407,12 +408,13 @@ pub fn gcd_ext_in_place(
                     &t1[..t1_len],
                 );
             }
+            // t0 can be longer than q*t1 (when q is small), so the carry has to be
+            // added to (rather than stored in) the higher words of t0
             if t_carry > 0 {
-                t0[qt1_len] = t_carry;
-                t0_len = qt1_len + 1;
-            } else {
-                t0_len = locate_top_word_plus_one(&t0[..qt1_len]);
+                let overflow = add::add_word_in_place(&mut t0[qt1_len..], t_carry);
+                debug_assert!(!overflow);
             }
+            t0_len = locate_top_word_plus_one(&t0[..t0_len.max(qt1_len + 1).min(lhs_len + 1)]);
 
             // swap: (x, y) = (y, r)
             x = mem::replace(&mut y, r);
